@@ -44,7 +44,9 @@ theorem sop1_quiet (i : Inst) (row : Row) (w : Nat) : (decodeSOP1 i row w).quiet
 
 theorem sopk_quiet (i : Inst) (w : Nat) : (decodeSOPK i w).quiet := by
   unfold decodeSOPK
-  split <;> simp [Dec4.quiet]
+  split
+  · split <;> simp [Dec4.quiet, Outcome.isNotImpl]
+  · simp [Dec4.quiet]
 
 theorem sopp_quiet (i : Inst) (w : Nat) : (decodeSOPP i w).quiet := by
   unfold decodeSOPP
